@@ -13,7 +13,7 @@ FSN = [8000, 12000, 16000, 24000, 48000]
 def native_ob(name, fsi, sd, tier, extra):
     return Ob(name, 'C01_native.c', ['src/opus.c'], ['-DFSI=%d' % fsi, '-DSD=%d' % sd, '-DPL=8', '-DMAXC=4'] + extra, unwind=1,
               replace=['opus_decode_frame_REAL:stub_decode_frame'],
-              unwindset=['harness:9', 'opus_decode_native:50', 'rec:opus_decode_native:3', 'opus_packet_parse_impl:6', 'rfc_parse:7'],
+              unwindset=['harness:9', 'opus_decode_native:2', 'opus_decode_native@pcm_count < frame_size:50', 'opus_decode_native@i<count:6', 'rec:opus_decode_native:3', 'opus_packet_parse_impl:9', 'rfc_parse:9'],
               functions=['opus_decode_native', 'opus_packet_parse_impl'], budget=1500, tier=tier, replay=False, mem_gb=16,
               stubs=['opus_decode_frame: synth stub (asserts its output region lies inside the caller buffer, returns the durations the real function may return, logs calls)'],
               bounds='Fs=%d, %s framing; any decoder state satisfying validate_opus_decoder; any 8-byte packet with <= 4 frames, any len -1..8, NULL or not; any frame_size 1..120 ms; decode_fec -1..2' % (FSN[fsi], 'self-delimited' if sd else 'standard'))
